@@ -33,9 +33,13 @@ type solveResult struct {
 }
 
 func runSolver(name, file string, timeoutS int) solveResult {
+	return runSolverCtx(context.Background(), name, file, timeoutS)
+}
+
+func runSolverCtx(parent context.Context, name, file string, timeoutS int) solveResult {
 	sp := solvers[name]
 	argv := sp.argv(file, timeoutS)
-	ctx, cancel := context.WithTimeout(context.Background(), time.Duration(timeoutS+3)*time.Second)
+	ctx, cancel := context.WithTimeout(parent, time.Duration(timeoutS+3)*time.Second)
 	defer cancel()
 	cmd := exec.CommandContext(ctx, argv[0], argv[1:]...)
 	var out bytes.Buffer
@@ -194,19 +198,26 @@ func discharge(u *Unit, o *Obligation, cfg *solveCfg, idx int) {
 		o.Solver = "z3-new(quantifier-free part)"
 		return
 	}
-	if record(runSolver("z3-new", file, cfg.quickT)) {
+	// a short first attempt, then the three solvers race (the losers are stopped)
+	if record(runSolver("z3-new", file, 3)) {
 		return
 	}
-	ch := make(chan solveResult, 2)
-	for _, s := range []string{"z3", "cvc5"} {
-		go func(s string) { ch <- runSolver(s, file, cfg.slowT) }(s)
+	race := []string{"z3-new", "z3", "cvc5"}
+	ctx, cancel := context.WithCancel(context.Background())
+	ch := make(chan solveResult, len(race))
+	for _, s := range race {
+		go func(s string) { ch <- runSolverCtx(ctx, s, file, cfg.slowT) }(s)
 	}
-	r1 := <-ch
-	if record(r1) {
-		go func() { <-ch }()
-		return
+	done := false
+	for range race {
+		r := <-ch
+		if !done && record(r) {
+			done = true
+			cancel()
+		}
 	}
-	if record(<-ch) {
+	cancel()
+	if done {
 		return
 	}
 	// undecided (quantifiers): look for a candidate counterexample of the quantifier-free part; it only
